@@ -101,32 +101,49 @@ pub fn build_arg(a: &Value) -> Arg {
     if a["has_env"].as_bool().unwrap() {
         x = x.env(a["env_name"].as_str().unwrap().to_string());
     }
+    // lists are applied in two steps (first element through the singular builder method, the rest through the plural one):
+    // the builder methods accumulate, and a definition assembled from several calls is as common as one call
     let c = strs(&a["conflicts"]);
-    if !c.is_empty() {
-        x = x.conflicts_with_all(c);
+    if let Some((first, rest)) = c.split_first() {
+        x = x.conflicts_with(first.clone());
+        if !rest.is_empty() {
+            x = x.conflicts_with_all(rest.to_vec());
+        }
     }
     let o = strs(&a["overrides"]);
-    if !o.is_empty() {
-        x = x.overrides_with_all(o);
+    if let Some((first, rest)) = o.split_first() {
+        x = x.overrides_with(first.clone());
+        if !rest.is_empty() {
+            x = x.overrides_with_all(rest.to_vec());
+        }
     }
     for r in strs(&a["requires"]) {
         x = x.requires(r);
     }
     let rifs: Vec<(String, String)> = a["requires_ifs"].as_array().unwrap().iter().map(|r| (s_of(&r["val"]), r["id"].as_str().unwrap().to_string())).collect();
-    if !rifs.is_empty() {
-        x = x.requires_ifs(rifs);
+    if let Some((first, rest)) = rifs.split_first() {
+        x = x.requires_if(first.0.clone(), first.1.clone());
+        if !rest.is_empty() {
+            x = x.requires_ifs(rest.to_vec());
+        }
     }
     let r1: Vec<(String, String)> = a["req_if_eq"].as_array().unwrap().iter().map(|r| (r["id"].as_str().unwrap().to_string(), s_of(&r["val"]))).collect();
-    if !r1.is_empty() {
-        x = x.required_if_eq_any(r1);
+    if let Some((first, rest)) = r1.split_first() {
+        x = x.required_if_eq(first.0.clone(), first.1.clone());
+        if !rest.is_empty() {
+            x = x.required_if_eq_any(rest.to_vec());
+        }
     }
     let r2: Vec<(String, String)> = a["req_if_eq_all"].as_array().unwrap().iter().map(|r| (r["id"].as_str().unwrap().to_string(), s_of(&r["val"]))).collect();
     if !r2.is_empty() {
         x = x.required_if_eq_all(r2);
     }
     let u1 = strs(&a["req_unless"]);
-    if !u1.is_empty() {
-        x = x.required_unless_present_any(u1);
+    if let Some((first, rest)) = u1.split_first() {
+        x = x.required_unless_present(first.clone());
+        if !rest.is_empty() {
+            x = x.required_unless_present_any(rest.to_vec());
+        }
     }
     let u2 = strs(&a["req_unless_all"]);
     if !u2.is_empty() {
